@@ -315,6 +315,21 @@ func init() {
 		"verifAllocBytes": func(e *Exec, fn *ssa.Function, a []Value) (Value, *GoPanic) {
 			return e.tb.Const(64, uint64(e.alloc)), nil
 		},
+		// verifStrDigest(s): the bytes of s, or nil when s is a formatted (opaque) string whose
+		// content is not modelled.
+		"verifStrDigest": func(e *Exec, fn *ssa.Function, a []Value) (Value, *GoPanic) {
+			sv := a[0].(*StrV)
+			bt := types.Typ[types.Uint8]
+			if sv.Opaque {
+				return &SliceV{}, nil
+			}
+			sl := e.newSlice(bt, len(sv.B), len(sv.B))
+			arr := sliceArr(sl)
+			for i, t := range sv.B {
+				arr.E[i] = t
+			}
+			return sl, nil
+		},
 		"verifSteps": func(e *Exec, fn *ssa.Function, a []Value) (Value, *GoPanic) {
 			return e.tb.Const(64, uint64(e.steps)), nil
 		},
